@@ -54,7 +54,10 @@ SYM_BYTES = {c: [ord(c)] for c in "0123456789+-.dhmsnu"}
 SYM_BYTES["micro"] = [0xC2, 0xB5]
 SYM_BYTES["greek"] = [0xCE, 0xBC]
 # concretisations of "x" (any other byte); none may combine with a neighbour into another symbol
-X_CANDS = [[ord("x")], [32], [ord("e")], [ord("D")], [0xC2], [0xFF], [0], [ord(",")], [0xCE], [ord("_")], [ord("S")]]
+# (the two-byte ones are the look-alikes of the micro signs: the other lead byte with the right second byte -
+# U+00BC, U+03B5 - and neighbours; after their first byte the parse is dead already, like after any "x")
+X_CANDS = [[ord("x")], [32], [ord("e")], [ord("D")], [0xC2], [0xFF], [0], [ord(",")], [0xCE], [ord("_")], [ord("S")],
+           [0xC2, 0xBC], [0xCE, 0xB5], [0xC2, 0xB6], [0xCE, 0xBB], [0xC3, 0xB5], [0xCF, 0xBC]]
 
 
 def _cell(neg=False, d=0, h=0, m=0, s=0, ms=0, us=0, ns=0):
